@@ -90,8 +90,7 @@ def run_mpi(scratch, script, args, nranks, extra=None, timeout=1800, cwd=None):
     mpidir = mkscratch("mpi")
     procs = []
     for r in range(nranks):
-        env = py_env(scratch, mpi="multi" if nranks > 1 else "single", extra=extra,
-                     rank=r, size=nranks, mpidir=mpidir)
+        env = py_env(scratch, mpi="multi", extra=extra, rank=r, size=nranks, mpidir=mpidir)
         procs.append(subprocess.Popen([PY, script] + list(args), env=env, cwd=cwd or os.path.dirname(scratch),
                                       stdout=subprocess.PIPE, stderr=subprocess.PIPE, text=True))
     out = []
